@@ -15,6 +15,7 @@ EXPLANATION = (
     "decoder's consumed-size (accepted idiom, assumption recorded). R07.6: read_slice returns &slice[MAGIC.len()+size..]."
 )
 THOROUGH_CONFIGS = [C.MINIMAL, C.NO_TAG]
+QUICK_CONFIGS = [C.MINIMAL, C.NO_TAG]
 NOT_DECIDED = [
     "that bincode errors on every truncated payload and never yields a different model (trusted base)",
     "equality of re-serialised bytes / of predictions",
